@@ -181,7 +181,9 @@ fn firing_in(entries: &[Entry]) -> BTreeSet<&'static str> {
 }
 
 struct BinCase {
-    /// 0 = `--path ./FromArg`; 1 = the explicit spelling of the default, `--path ./contracts`; 2 = `-p ./FromArg`
+    /// 0 = `--path ./FromArg`; 1 = the explicit spelling of the default, `--path ./contracts`; 2 = `-p ./FromArg`;
+    /// 3 = `--path ./` (the working directory itself, i.e. all marker directories); 4 = `--path ~FromArg` (a
+    /// directory whose name starts with a tilde, spelled bare); 5 = `--path FromArg/` (bare, trailing slash)
     path_style: u8,
     /// seed for the creation (hence listing) order of the corpus files
     order_seed: u64,
@@ -193,6 +195,8 @@ struct BinCase {
     unknown: Option<(String, String)>,
     /// the configuration file names a directory that does not exist
     toml_path_missing: bool,
+    /// the configuration file names `~FromToml` (a directory whose name starts with a tilde, spelled bare)
+    toml_tilde: bool,
 }
 
 fn toml_text(path: &str, sel: &[(String, String)], unknown: &Option<(String, String)>) -> String {
@@ -211,7 +215,7 @@ fn toml_text(path: &str, sel: &[(String, String)], unknown: &Option<(String, Str
 fn binary_case(env: &Env, tape: &[u8], st: &mut Stats) -> Vec<Violation> {
     let mut t = Tape::new(tape);
     let docs = documented(env);
-    let mut c = BinCase { path_style: t.below(3) as u8, order_seed: t.u64(), use_path: t.chance(128), use_toml: t.chance(170), have_contracts: t.chance(150), selected: vec![], unknown: None, toml_path_missing: false };
+    let mut c = BinCase { path_style: *t.pick(&[0u8, 1, 2, 0, 1, 2, 3, 4, 5]), order_seed: t.u64(), use_path: t.chance(128), use_toml: t.chance(170), have_contracts: t.chance(150), selected: vec![], unknown: None, toml_path_missing: false, toml_tilde: false };
     if c.path_style == 1 {
         c.have_contracts = true;
     }
@@ -236,6 +240,7 @@ fn binary_case(env: &Env, tape: &[u8], st: &mut Stats) -> Vec<Violation> {
             c.unknown = Some((cat.to_string(), n.to_string()));
         }
         c.toml_path_missing = t.chance(40);
+        c.toml_tilde = !c.toml_path_missing && t.chance(40);
     }
     run_bin_case(env, &c, st)
 }
@@ -244,11 +249,19 @@ fn run_bin_case(env: &Env, c: &BinCase, st: &mut Stats) -> Vec<Violation> {
     let sc = Scratch::new("c14");
     let w = sc.path.join("w");
     std::fs::create_dir_all(&w).unwrap();
-    let dirs = [("contracts", "DefaultDir"), ("FromToml", "TomlDir"), ("FromArg", "ArgDir")];
+    let mut dirs = vec![("contracts", "DefaultDir"), ("FromToml", "TomlDir"), ("FromArg", "ArgDir")];
+    if c.use_path && c.path_style == 4 {
+        dirs.push(("~FromArg", "TildeArgDir"));
+    }
+    if c.use_toml && c.toml_tilde {
+        dirs.push(("~FromToml", "TildeTomlDir"));
+    }
+    let mut present: Vec<&str> = Vec::new();
     for (d, marker) in dirs {
         if d == "contracts" && !c.have_contracts {
             continue;
         }
+        present.push(marker);
         let p = w.join(d);
         std::fs::create_dir_all(&p).unwrap();
         // creation order (= reverse listing order on tmpfs) of the corpus files from the case
@@ -262,7 +275,7 @@ fn run_bin_case(env: &Env, c: &BinCase, st: &mut Stats) -> Vec<Violation> {
     let fire = firing_in(&corpus("M"));
     let toml_file = w.join("cfg.toml");
     if c.use_toml {
-        std::fs::write(&toml_file, toml_text(if c.toml_path_missing { "./Missing" } else { "./FromToml" }, &c.selected, &c.unknown)).unwrap();
+        std::fs::write(&toml_file, toml_text(if c.toml_path_missing { "./Missing" } else if c.toml_tilde { "~FromToml" } else { "./FromToml" }, &c.selected, &c.unknown)).unwrap();
     }
     let mut args: Vec<&str> = Vec::new();
     if c.use_path {
@@ -274,6 +287,18 @@ fn run_bin_case(env: &Env, c: &BinCase, st: &mut Stats) -> Vec<Violation> {
             2 => {
                 args.push("-p");
                 args.push("./FromArg");
+            }
+            3 => {
+                args.push("--path");
+                args.push("./");
+            }
+            4 => {
+                args.push("--path");
+                args.push("~FromArg");
+            }
+            5 => {
+                args.push("--path");
+                args.push("FromArg/");
             }
             _ => {
                 args.push("--path");
@@ -290,7 +315,7 @@ fn run_bin_case(env: &Env, c: &BinCase, st: &mut Stats) -> Vec<Violation> {
     st.evaluations += 1;
     st.mark("path_toml_contracts_combinations", &format!("path={} toml={} contracts={}", c.use_path, c.use_toml, c.have_contracts));
     st.sample(4, || json!({"args": args, "toml": if c.use_toml { Some(toml_text("./FromToml", &c.selected, &c.unknown)) } else { None }, "have_contracts_dir": c.have_contracts}));
-    let case = json!({"path_style": c.path_style, "order_seed": c.order_seed, "use_path": c.use_path, "use_toml": c.use_toml, "have_contracts": c.have_contracts, "selected": c.selected, "unknown": c.unknown, "toml_path_missing": c.toml_path_missing});
+    let case = json!({"path_style": c.path_style, "order_seed": c.order_seed, "use_path": c.use_path, "use_toml": c.use_toml, "have_contracts": c.have_contracts, "selected": c.selected, "unknown": c.unknown, "toml_path_missing": c.toml_path_missing, "toml_tilde": c.toml_tilde});
     let mixed_case = c.selected.iter().any(|(_, n)| n.chars().any(|ch| ch.is_ascii_uppercase()));
     let cats: BTreeSet<&String> = c.selected.iter().map(|(c, _)| c).collect();
     if mixed_case || cats.len() >= 2 || (c.use_toml && c.have_contracts) || (c.use_path && c.use_toml) {
@@ -321,14 +346,20 @@ fn run_bin_case(env: &Env, c: &BinCase, st: &mut Stats) -> Vec<Violation> {
         return vec![];
     }
     // which directory must have been analysed
-    let expect_marker = if c.use_path && c.path_style == 1 {
-        Some("DefaultDir")
+    let expect_marker: Option<Vec<&str>> = if c.use_path && c.path_style == 1 {
+        Some(vec!["DefaultDir"])
+    } else if c.use_path && c.path_style == 3 {
+        Some(present.clone())
+    } else if c.use_path && c.path_style == 4 {
+        Some(vec!["TildeArgDir"])
     } else if c.use_path {
-        Some("ArgDir")
+        Some(vec!["ArgDir"])
+    } else if c.use_toml && c.toml_tilde {
+        Some(vec!["TildeTomlDir"])
     } else if c.use_toml {
-        Some("TomlDir")
+        Some(vec!["TomlDir"])
     } else if c.have_contracts {
-        Some("DefaultDir")
+        Some(vec!["DefaultDir"])
     } else {
         None
     };
@@ -359,14 +390,14 @@ fn run_bin_case(env: &Env, c: &BinCase, st: &mut Stats) -> Vec<Violation> {
     }
     let report = String::from_utf8_lossy(&out.report.unwrap_or_default()).to_string();
     let parsed = parse_report(&report);
-    let markers: BTreeSet<&str> = parsed.entries.iter().map(|e| if e.file.starts_with("ArgDir") { "ArgDir" } else if e.file.starts_with("TomlDir") { "TomlDir" } else if e.file.starts_with("DefaultDir") { "DefaultDir" } else { "?" }).collect();
+    let markers: BTreeSet<&str> = parsed.entries.iter().map(|e| if e.file.starts_with("TildeArgDir") { "TildeArgDir" } else if e.file.starts_with("TildeTomlDir") { "TildeTomlDir" } else if e.file.starts_with("ArgDir") { "ArgDir" } else if e.file.starts_with("TomlDir") { "TomlDir" } else if e.file.starts_with("DefaultDir") { "DefaultDir" } else { "?" }).collect();
     // expected sections
     let selected: BTreeSet<&'static str> = if c.use_toml { c.selected.iter().filter_map(|(_, n)| patterns::by_name(&n.to_lowercase()).map(|p| p.name)).collect() } else { patterns::all().iter().map(|p| p.name).collect() };
     let expected: BTreeSet<&'static str> = selected.intersection(&fire).copied().collect();
     let got: BTreeSet<&str> = parsed.sections.iter().map(|s| s.as_str()).collect();
-    if !expected.is_empty() && markers != [expect_marker].into_iter().collect() {
+    if !expected.is_empty() && markers != expect_marker.iter().copied().collect() {
         let kind = if !c.use_path && c.use_toml { "toml-path-ignored" } else if c.path_style == 1 { "explicit-default-path-ignored" } else { "wrong-directory" };
-        return vec![Violation::new("binary", format!("directory:{kind}"), format!("the report names files of {:?}, the directory to analyse was that of {}", markers, expect_marker), case)];
+        return vec![Violation::new("binary", format!("directory:{kind}"), format!("the report names files of {:?}, the directory to analyse was that of {:?}", markers, expect_marker), case)];
     }
     let got_owned: BTreeSet<String> = got.iter().map(|s| s.to_string()).collect();
     let exp_owned: BTreeSet<String> = expected.iter().map(|s| s.to_string()).collect();
@@ -398,6 +429,7 @@ pub fn replay(env: &Env, check: &str, case: &Value, st: &mut Stats) -> Vec<Viola
         selected: sel,
         unknown,
         toml_path_missing: case.get("toml_path_missing").and_then(|b| b.as_bool()).unwrap_or(false),
+        toml_tilde: case.get("toml_tilde").and_then(|b| b.as_bool()).unwrap_or(false),
     };
     run_bin_case(env, &c, st)
 }
